@@ -46,6 +46,16 @@ def apply_patch(scratch, patch):
                             stdout=subprocess.PIPE, stderr=subprocess.STDOUT, text=True)
         if r2.returncode != 0:
             raise RuntimeError("patch does not apply: %s\n%s\n%s" % (patch, r.stdout, r2.stdout))
+    # `git apply` can succeed without touching anything (for instance when the scratch directory happens to lie inside another work tree):
+    # a patch that left every file it names identical to the original was not applied, and its verdict would be the base tree's
+    touched = [l[6:].strip() for l in open(patch, errors="replace") if l.startswith("+++ b/")]
+    changed = 0
+    for rel in touched:
+        a, b = os.path.join(scratch, rel), os.path.join(extract.REPO, rel)
+        if os.path.exists(a) != os.path.exists(b) or (os.path.exists(a) and open(a, "rb").read() != open(b, "rb").read()):
+            changed += 1
+    if touched and not changed:
+        raise RuntimeError("patch had no effect on the scratch copy: %s" % patch)
 
 
 def run_props(facts_dir, props):
